@@ -820,19 +820,23 @@ impl W {
         }
         let ps = params.to_string();
         let hashes: Vec<String> = self.mon.keys().cloned().collect();
+        let mut free_now: BTreeMap<String, bool> = BTreeMap::new();
+        if method == Method::Listdatastore {
+            for h in &hashes {
+                if ps.contains(h.as_str()) {
+                    let k = self.durable_kind(h);
+                    free_now.insert(h.clone(), k == "Free");
+                }
+            }
+        }
         for h in hashes {
             if ps.contains(&h) {
                 let t = self.vtime_ms;
                 let m = self.mon.get_mut(&h).unwrap();
                 m.last_answer_ms = Some(t);
                 if method == Method::Listdatastore {
-                    let free = match res {
-                        Ok(v) => {
-                            let ds = v.get("datastore").and_then(|d| d.as_array()).cloned().unwrap_or_default();
-                            ds.is_empty() || ds[0].get("string").and_then(|s| s.as_str()).map(|s| s.contains("Free")).unwrap_or(false)
-                        }
-                        Err(_) => false,
-                    };
+                    // what the plugin has just read, interpreted by the code's own reader (format-independent)
+                    let free = res.is_ok() && free_now.get(&h).copied().unwrap_or(false);
                     m.read_free_at = if free { Some(t) } else { None };
                 }
             }
